@@ -519,46 +519,92 @@ def bool_locals_of(body):
     return bl
 
 
+_TRY_BRANCH = "core::ops::try_trait::Try::branch"
+
+
 def bool_transfer(body, bb, known):
-    """Known constant values of bool locals after the statements and the call destination of block bb.
-    Tracked: `x = const true|false`, `x = copy/move y`, `x = !y`; any other write forgets x."""
+    """Path-sensitive knowledge about *small constants* after the statements and the call of block bb.
+    known: local -> ("b", bool) | ("i", int) | ("v", variant index).  Tracked:
+      x = const bool/int, x = copy/move y, x = !y, x = Variant(..) (aggregate), x = discriminant(y),
+      x = Try::branch(y) for Result / Option (Ok|Some -> Continue, Err|None -> Break);
+    any other whole-local write forgets x; a write through a projection of x forgets x.
+    This is what makes `matches!(..)`, `let flag = ..; if flag`, and a helper returning `Err(..)` followed by
+    `?` in the caller equivalent to branching on the original test."""
     known = dict(known)
-    bool_locals = bool_locals_of(body)
     blk = body.blocks[bb]
     for s in blk["stmts"]:
-        if s["s"] != "assign" or s["p"]["p"] or s["p"]["l"] not in bool_locals:
+        if s["s"] == "setdiscr":
+            known.pop(s["p"]["l"], None)
             continue
-        dl, rv = s["p"]["l"], s["rv"]
+        if s["s"] != "assign":
+            continue
+        dl = s["p"]["l"]
+        if s["p"]["p"]:
+            known.pop(dl, None)
+            continue
+        rv = s["rv"]
         val = None
-        if rv["r"] == "use":
-            val = _const_bool(rv["o"])
-            if val is None:
-                src = op_local(rv["o"])
+        r = rv["r"]
+        if r == "use":
+            o = rv["o"]
+            k = o.get("k") if isinstance(o, dict) else None
+            if k is not None and isinstance(k.get("v"), int):
+                tn = (k.get("ty") or {}).get("n")
+                val = ("b", bool(k["v"])) if tn == "bool" else ("i", k["v"])
+            else:
+                src = op_local(o)
                 if src is not None and src in known:
                     val = known[src]
-        elif rv["r"] == "un" and rv.get("op") == "Not":
+        elif r == "un" and rv.get("op") == "Not":
             src = op_local(rv["a"])
-            if src is not None and src in known:
-                val = not known[src]
+            if src is not None and known.get(src, ("?",))[0] == "b":
+                val = ("b", not known[src][1])
+        elif r == "agg" and rv.get("kind") == "adt" and isinstance(rv.get("variant"), int):
+            val = ("v", rv["variant"])
+        elif r == "discr":
+            p = rv["p"]
+            if not [e for e in p["p"] if e != "deref"] and known.get(p["l"], ("?",))[0] == "v":
+                val = ("i", known[p["l"]][1])
         if val is None:
             known.pop(dl, None)
         else:
             known[dl] = val
     t = blk["term"]
     if t["t"] == "call" and not t["dest"]["p"]:
-        known.pop(t["dest"]["l"], None)
+        dl = t["dest"]["l"]
+        val = None
+        if callee(t) == _TRY_BRANCH and len(t["args"]) == 1:
+            src = op_local(t["args"][0])
+            a0 = ((t.get("f") or {}).get("a") or [None])[0]
+            tn = a0.get("n") if isinstance(a0, dict) else None
+            if src is not None and known.get(src, ("?",))[0] == "v":
+                vi = known[src][1]
+                if tn == "core::result::Result":
+                    val = ("v", vi)                 # Ok(0) -> Continue(0), Err(1) -> Break(1)
+                elif tn == "core::option::Option":
+                    val = ("v", 1 - vi)             # None(0) -> Break(1), Some(1) -> Continue(0)
+        if val is None:
+            known.pop(dl, None)
+        else:
+            known[dl] = val
     return known
 
 
 def bool_switch_target(body, bb, known):
-    """If block bb ends in a switch on a bool local whose value is known: the only feasible successor."""
+    """If block bb ends in a switch on a local whose constant value is known: the only feasible successor."""
     t = body.blocks[bb]["term"]
     if t["t"] != "switch":
         return None
     l = op_local(t["d"])
     if l is None or l not in known:
         return None
-    want = 1 if known[l] else 0
+    k = known[l]
+    if k[0] == "b":
+        want = 1 if k[1] else 0
+    elif k[0] == "i":
+        want = k[1]
+    else:
+        return None
     for v, tb in t["targets"]:
         if v == want:
             return tb
@@ -571,7 +617,7 @@ def feasible_reach(body, start=0, cut_edges=(), cut_blocks=(), init=None):
     This makes `matches!(v, A | B)` / `let flag = ..; if flag` equivalent to branching on the original test."""
     cut_edges = set(cut_edges)
     cut_blocks = set(cut_blocks)
-    s0 = (start, frozenset((init or {}).items()))
+    s0 = (start, frozenset((init or {}).items()))     # init: local -> ("b"|"i"|"v", value)
     seen = {s0}
     st = [s0]
     blocks = set()
